@@ -23,6 +23,7 @@ EXTENDS Naturals, Integers, Sequences, FiniteSets, TLC
 
 CONSTANTS Files, MaxClock, TzOffsets, UtcRead, MaxRounds, HashSets, ShortcutChecksHashes,
           TrustAdopted    \* TRUE = historical: the short-cut also trusts entries of a Manifest adopted in this run (F52)
+                          \* or edited since its parent recorded it (F53)
 
 Contents == {"a", "b", "c2"}                 \* a, b: equal size; c2: another size
 SizeOf(c) == IF c = "c2" THEN 2 ELSE 1
@@ -88,6 +89,18 @@ Ship(f, c, claim, m) ==
 EnvShip == \E f \in Files : \E c \in {"a", "b"} : \E claim \in {"a", "b"} : \E m \in {ts * 2 - 1, clock} :
                Ship(f, c, claim, m)
 
+(* the Manifest holding f's entry is edited by hand (reverted to an older revision ...): the entry now  *)
+(* claims another content of the same size; the Manifest FILE gets a newer mtime (the property's         *)
+(* precondition for a modified file), so the update notices that it no longer matches what its parent   *)
+(* records - same flag as for an adopted Manifest (F53)                                                   *)
+Revert(f, claim) ==
+    /\ ~run.on /\ inc[f].c # "none" /\ claim # inc[f].c /\ SizeOf(claim) = SizeOf(inc[f].c)
+    /\ inc' = [inc EXCEPT ![f] = [c |-> claim, hs |-> inc[f].hs, ad |-> TRUE]]
+    /\ full' = [full EXCEPT ![f] = [c |-> claim, hs |-> full[f].hs, ad |-> TRUE]]
+    /\ dirty' = dirty \cup {f}
+    /\ UNCHANGED <<clock, tz, tree, ts, run, excused, rounds>>
+EnvRevert == \E f \in Files : \E claim \in {"a", "b"} : Revert(f, claim)
+
 (* ---- the incremental update, one file per step --------------------------- *)
 LastMtime(t) == IF UtcRead THEN t * 2 ELSE (t - tz) * 2     \* in half seconds
 
@@ -119,7 +132,7 @@ Finish ==
     /\ run' = Idle
     /\ UNCHANGED <<clock, tz, tree, inc, full, dirty, excused, rounds>>
 
-Next == Tick \/ EnvModify \/ EnvShip \/ Start \/ (\E f \in Files : HashOne(f)) \/ Finish
+Next == Tick \/ EnvModify \/ EnvShip \/ EnvRevert \/ Start \/ (\E f \in Files : HashOne(f)) \/ Finish
 Spec == Init /\ [][Next]_vars
 
 (* ---- properties ---------------------------------------------------------- *)
